@@ -535,6 +535,195 @@ contract(
     ensures=[Clause("negative-from-end", {"C19", "C01", "C08"}, lambda a, r, p: S.And(
         _wrapped(a.coord[0], vlen(a.self, "cols"), r[0]), _wrapped(a.coord[1], vlen(a.self, "rows"), r[1])))],
     inline={"odfdo.utils.coordinates:convert_coordinates"},
+    result=TupleOf(Int, Int),
     concretize=concretize_vault, gen=gen_vault, observer=True,
     note="tuple forms (x, y) and (x, y, z, t): the first cell is addressed; negatives wrap against width / height",
+)
+
+
+# ------------------------------------------------------------------ two-level reads: Table.get_value / Table.get_cell (C01 C02 C08)
+# Ghost per row node r: CSEQ[r] its cell nodes, CK[r] their number, GM[r] the position map of its cells
+# (prefix sums of their repeats).  RWF(r): GM[r] is that map.  A Row wrapper the table hands out for node r
+# (fresh from the XML or from the row cache) carries exactly this state: assumed contract of Row.__init__
+# (= make_cache_map over elements_repeated_sequence, both under contract) and, for cached wrappers, the
+# nested conjunct of the C02 invariant (cached rows are coherent with the XML).
+CSEQ = z3.Array("xml.cseq", z3.IntSort(), z3.ArraySort(z3.IntSort(), z3.IntSort()))
+CK = z3.Array("xml.ck", z3.IntSort(), z3.IntSort())
+GM = z3.Array("xml.gm", z3.IntSort(), z3.ArraySort(z3.IntSort(), z3.IntSort()))
+VAL = z3.Function("cell.value", z3.IntSort(), z3.IntSort())          # value shown by a cell content
+
+
+def row_parts(r):
+    from pyvc.spec import LView as LV
+    return LV(L.LLeaf(z3.Select(CSEQ, r), z3.Select(CK, r), "cells")), LV(L.LLeaf(z3.Select(GM, r), z3.Select(CK, r), "gm"))
+
+
+def rwf(v, r):
+    """RWF(r) on the XML arrays of view v"""
+    cells, gm = row_parts(r)
+    k = zint(cells.n)
+    j = z3.FreshInt("j")
+    cj, gj = cells[j], gm[j]
+    from pyvc.spec import mpat
+    j2 = z3.FreshInt("j2")
+    return z3.And(
+        k >= 0,
+        qforall([j], z3.Implies(z3.And(0 <= j, j < k), gj - z3.If(j > 0, gm[j - 1], -1) == v.rep_of(cj)), [cj]),
+        qforall([j, j2], z3.Implies(z3.And(0 <= j, j < j2, j2 < k), gj < gm[j2]), [[gj, gm[j2]]]),
+        qforall([j, j2], z3.Implies(z3.And(0 <= j, j < j2, j2 < k), cj != cells[j2]), [[cj, cells[j2]]]),
+        qforall([j], z3.Implies(z3.And(0 <= j, j < k), z3.And(0 <= cj, cj < v.N0)), [cj]))
+
+
+def all_rows_wf(v):
+    rows = v.seq("rows")
+    i = z3.FreshInt("i")
+    ri = rows[i]
+    return qforall([i], z3.Implies(z3.And(0 <= i, i < zint(rows.n)), rwf(v, ri)), [ri])
+
+
+def _materialize_row(en, w):
+    """give a row wrapper handed out by the table its cell-level state (see the note above)"""
+    from pyvc.xmlmodel import VAULT, make_idx
+    r = w.fields["node"]
+    w.fields["__items_cells"] = L.LLeaf(z3.Select(CSEQ, r), z3.Select(CK, r), "cells")
+    w.fields["_rmap"] = ListV(L.LLeaf(z3.Select(GM, r), z3.Select(CK, r), "gm"))
+    w.fields["_indexes"] = {"_rmap": make_idx(en, "_rmap", item_classes()["cells"])}
+    w.fields.setdefault("y", None)
+    w.model = VAULT
+    return w
+
+
+_gei = REGISTRY["odfdo.element:Element._get_element_idx2"]
+_old_gei = _gei.call
+
+
+def _gei_nested(en, con, vals, site):
+    w = _old_gei(en, con, vals, site)
+    if w is not None and en.ghost.get("nested_rows") and w.cls is item_classes()["rows"]:
+        _materialize_row(en, w)
+    return w
+
+
+_gei.call = _gei_nested
+
+
+def _nested_table_maker(en, name, **kw):
+    t = vault_maker(en, name, **kw)
+    en.ghost["nested_rows"] = True
+    # cached row wrappers: coherent by the nested invariant; modelled as "no row cached" plus the
+    # assumption that a cached wrapper equals the one rebuilt from the XML (C02 nested conjunct)
+    from pyvc.xmlmodel import make_idx
+    t.fields["_indexes"]["_tmap"] = make_idx(en, "_tmap", item_classes()["rows"])
+    return t
+
+
+def _ntable():
+    import odfdo.table as T
+    return Model("TableVault", _nested_table_maker, cls=T.Table, kinds=("rows", "cols"))
+
+
+def _h_cell_get_value(en, con, vals, site):
+    st = xstate(en)
+    v = VAL(z3.Select(st.pl, vals["self"].fields["node"]))
+    if vals.get("get_type"):
+        return (v, en.fresh("type", "str"))
+    return v
+
+
+contract("odfdo.element_typed:ElementTyped.get_value", call=_h_cell_get_value, trusted=True, sig={},
+         note="the value shown by a cell is a function of its content (typed decoding is C06)")
+
+
+def _grid_value_is(a, x, y, value, none_marker=None):
+    """forall i, j. located(tmap, i, y) and located(GM[rows[i]], j, x) => value == VAL(pl(cells[j]))"""
+    v = a.self
+    tmap, rows = v.map("_tmap"), v.seq("rows")
+    i, j = z3.FreshInt("i"), z3.FreshInt("j")
+    r = rows[i]
+    cells, gm = row_parts(r)
+    loc_y = z3.And(0 <= i, i < zint(tmap.n), y <= tmap[i], z3.Implies(i > 0, tmap[i - 1] < y))
+    loc_x = z3.And(0 <= j, j < zint(cells.n), x <= gm[j], z3.Implies(j > 0, gm[j - 1] < x))
+    return z3.ForAll([i, j], z3.Implies(z3.And(loc_y, loc_x), value == VAL(v.pl_of(cells[j]))))
+
+
+def _row_width_at(a, y):
+    """forall i. located(tmap, i, y) => width of that row"""
+    raise NotImplementedError
+
+
+def _get_value_post(a, r, p):
+    if not isinstance(a.self, VaultView):
+        return True
+    x, y = a.coord
+    v = a.self
+    if r is None:
+        # outside the populated area: beyond the last row, or beyond the last cell of that row
+        tmap, rows = v.map("_tmap"), v.seq("rows")
+        i = z3.FreshInt("i")
+        _cells, gm = row_parts(rows[i])
+        loc_y = z3.And(0 <= i, i < zint(tmap.n), y <= tmap[i], z3.Implies(i > 0, tmap[i - 1] < y))
+        row_w = z3.If(zint(_cells.n) > 0, gm[zint(_cells.n) - 1] + 1, 0)
+        return z3.Or(y >= vlen(v, "rows"), z3.ForAll([i], z3.Implies(loc_y, x >= row_w)))
+    return z3.And(y < vlen(v, "rows"), _grid_value_is(a, x, y, r))
+
+
+contract(
+    "odfdo.table:Table.get_value",
+    sig=dict(self=_ntable(), coord=TupleOf(Int, Int), get_type=Const(False)),
+    requires=lambda a: S.And(inv_vault(a.self, "rows"), inv_vault(a.self, "cols"), all_rows_wf(a.self),
+                             a.coord[0] >= 0, a.coord[1] >= 0),
+    inline={"odfdo.row:Row._get_cell2_base", "odfdo.table:Table._get_row2_base"},
+    ensures=[
+        Clause("grid-read", {"C01", "C02", "C08"}, _get_value_post),
+        Clause("frame", {"C08", "C15"}, lambda a, r, p: S.And(_xml_unchanged(a.self, p.self, "rows"),
+                                                              _map_unchanged(a.self, p.self, "_tmap"))),
+    ],
+    note="non-negative (x, y) tuples (negatives wrap by _translate_cell_coordinates, proved separately); the "
+         "value read is the content of the cell the two position maps locate, None outside the populated area",
+)
+
+
+def _grid_pl_is(a, x, y, plv):
+    v = a.self
+    tmap, rows = v.map("_tmap"), v.seq("rows")
+    i, j = z3.FreshInt("i"), z3.FreshInt("j")
+    cells, gm = row_parts(rows[i])
+    loc_y = z3.And(0 <= i, i < zint(tmap.n), y <= tmap[i], z3.Implies(i > 0, tmap[i - 1] < y))
+    loc_x = z3.And(0 <= j, j < zint(cells.n), x <= gm[j], z3.Implies(j > 0, gm[j - 1] < x))
+    return z3.ForAll([i, j], z3.Implies(z3.And(loc_y, loc_x), plv == v.pl_of(cells[j])))
+
+
+def _get_cell_post(a, r, p):
+    if not isinstance(a.self, VaultView):
+        return True
+    from specs.row import PL_EMPTY
+    x, y = a.coord
+    v = a.self
+    tmap, rows = v.map("_tmap"), v.seq("rows")
+    i = z3.FreshInt("i")
+    _cells, gm = row_parts(rows[i])
+    loc_y = z3.And(0 <= i, i < zint(tmap.n), y <= tmap[i], z3.Implies(i > 0, tmap[i - 1] < y))
+    row_w = z3.If(zint(_cells.n) > 0, gm[zint(_cells.n) - 1] + 1, 0)
+    outside = z3.Or(y >= vlen(v, "rows"), z3.ForAll([i], z3.Implies(loc_y, x >= row_w)))
+    inside_row = z3.And(y < vlen(v, "rows"), z3.ForAll([i], z3.Implies(loc_y, x < row_w)))
+    return z3.And(z3.Implies(outside, r.pl == PL_EMPTY), z3.Implies(inside_row, _grid_pl_is(a, x, y, r.pl)))
+
+
+contract(
+    "odfdo.table:Table.get_cell",
+    sig=dict(self=_ntable(), coord=TupleOf(Int, Int), clone=Bool, keep_repeated=Const(True)),
+    requires=lambda a: S.And(inv_vault(a.self, "rows"), inv_vault(a.self, "cols"), all_rows_wf(a.self),
+                             a.coord[0] >= 0, a.coord[1] >= 0),
+    inline={"odfdo.row:Row._get_cell2_base", "odfdo.row:Row._get_cell2", "odfdo.row:Row.get_cell",
+            "odfdo.table:Table._get_row2_base"},
+    ensures=[
+        Clause("grid-read", {"C01", "C02", "C08"}, _get_cell_post),
+        Clause("stamp", {"C08"}, lambda a, r, p: S.And(S.same_or_eq(r.x, a.coord[0]), S.same_or_eq(r.y, a.coord[1]))),
+        Clause("detached-copy", {"C08", "C10"}, lambda a, r, p: S.Implies(a.clone, lambda: is_fresh(r, a.self))
+               if isinstance(a.self, VaultView) else True),
+        Clause("frame", {"C08", "C15"}, lambda a, r, p: S.And(_xml_unchanged(a.self, p.self, "rows"),
+                                                              _map_unchanged(a.self, p.self, "_tmap"))),
+    ],
+    note="non-negative (x, y) tuples, keep_repeated=True (default): the returned cell has the content the two "
+         "position maps locate (an empty cell outside), carries the coordinates, and is a fresh node when cloned",
 )
